@@ -30,7 +30,20 @@ DEEP = [  # (name, prefix, unit, suffix_unit) structured deep-nesting inputs
 ]
 
 
+# nesting that mixes the three guarded categories (expressions, patterns, type expressions): the bound on the call
+# stack and the progress-guard fuel must hold for their SUM, not per category
+MIXED = {
+    'mixed-call-then-fn-type': lambda n: 'fn main() {\n  ' + 'f(' * n + 'fn(a: ' + 'fn(' * n,
+    'mixed-block-then-pattern': lambda n: 'fn f() ' + '{ ' * n + 'let ' + '[' * n,
+    'mixed-list-then-lambda-type': lambda n: 'fn f() { ' + '[' * n + 'fn(a: ' + '#(' * n,
+    'mixed-case-pattern-type': lambda n: 'fn f() { ' + 'case x { a -> ' * (n // 2) + 'let ' + '#(' * n + 'a: ' + 'fn(' * n,
+}
+DEEP += [(nm, None, None, None) for nm in MIXED]
+
+
 def deep_input(name, n):
+    if name in MIXED:
+        return MIXED[name](n)
     for nm, pre, unit, suf in DEEP:
         if nm == name:
             return pre + unit * n + ('x' if suf else '') + suf * n + (' = 1 }' if 'pattern' in nm and suf else '')
